@@ -13,10 +13,12 @@ RULE = ("streams of 1..4 valid messages (whole grammar, library spelling and for
         "random k-cuts (quick); ALL 2-cut partitions of streams <= 150 chars and ALL 3-cut partitions of streams <= 100 chars "
         "(thorough). After every piece the delivered list must equal exactly the messages whose last character has arrived "
         "(decides loss, order, duplication, content and promptness at once); Buffer.process runs under a logical step budget. "
-        "non-trivial = the partition cuts inside a message; distinct = hash(stream, threshold, cut positions)")
+        "The same oracle through the real transports: 2..3 TCP server (or client, control/BLOB mode) connection handlers of one process, "
+        "each fed its own stream in random pieces, the pieces interleaved round-robin / randomly / sequentially; deliveries are "
+        "recorded per connection at the router call / callback. non-trivial = the partition cuts inside a message; distinct = hash(stream, threshold, cut positions)")
 ASSUMPTIONS = ["only elements no longer than the threshold are generated when a threshold is set",
                "comments / CDATA / DOCTYPE are outside the quantifier"]
-REQUIRED_EVENTS = ["process_calls", "deliveries", "cuts_inside_message", "threshold_disabled_runs"]
+REQUIRED_EVENTS = ["process_calls", "deliveries", "cuts_inside_message", "threshold_disabled_runs", "transport_runs", "transport_pieces_fed"]
 QUICK_SHARDS = 4
 EXHAUSTIVE_NOTE = "1-cut partitions of every stream are complete in both tiers; 2-/3-cut partitions of the short corpus are complete in the thorough tier"
 
@@ -147,6 +149,62 @@ def check_partition(ctx, stream, ams, ends, thr, thr_mode, cuts, case):
     return inside
 
 
+def transport_case(ctx, i):
+    """The same oracle through the real transports: 2..3 connections of one process, each fed its own stream, the pieces of
+    the streams interleaved.  What a connection delivers must be exactly its own messages, each as soon as its last
+    character arrived on THAT connection."""
+    from vf import transportx as T
+    rng = ctx.rng("transport", i)
+    kind = ["server-tcp", "client-tcp"][i % 2]
+    nconn = rng.choice([2, 2, 3])
+    for_blobs = [kind == "client-tcp" and rng.random() < 0.5 for _ in range(nconn)]
+    conns = []
+    for k in range(nconn):
+        for attempt in range(20):
+            stream, ams, ends = build_stream(ctx, 50000 + i * 100 + k * 20 + attempt, short=rng.random() < 0.5)
+            # on the wire: Latin-1 bytes, anything beyond as character references (what the library's own serialiser does)
+            enc = lambda t: t.encode("latin1", "xmlcharrefreplace").decode("latin1")
+            ends = [len(enc(stream[:e])) for e in ends]
+            stream = enc(stream)
+            if for_blobs[k] or longest_element(stream, ends) <= 2000:
+                break
+        cuts = P.random_cuts(rng, len(stream), rng.choice([1, 2, 3, 6]))
+        conns.append((stream, ams, ends, P.cut(stream, cuts)))
+    how = ["round-robin", "random", "random", "sequential"][(i // 2) % 4]
+    schedule = T.interleavings(rng, [len(c[3]) for c in conns], how)
+    case = {"mode": "transport", "i": i}
+    res, stats = T.run(kind, [c[3] for c in conns], schedule, for_blobs=for_blobs)
+    ctx.count("transport_runs")
+    ctx.count("transport_connections", nconn)
+    ctx.count("transport_pieces_fed", len(res.after))
+    ctx.count("process_calls", stats["calls"])
+    ctx.seen("transport_kinds", kind + ":" + how)
+    detail = {"kind": kind, "schedule": schedule, "pieces": [c[3] for c in conns], "for_blobs": for_blobs}
+    if res.errors:
+        ci, what, text = res.errors[0]
+        ctx.violate(f"transport:{what}:{kind}", f"connection {ci}: {what} {text}", case, detail)
+        return True
+    if res.foreign:
+        ctx.violate(f"transport:delivery-attributed-to-nobody:{kind}", f"{res.foreign[0]}", case, detail)
+        return True
+    for step, (ci, fed, ndel) in enumerate(res.after):
+        due = sum(1 for e in conns[ci][2] if e <= fed)
+        if ndel != due:
+            ctx.violate(f"transport:{'late-or-lost' if ndel < due else 'early-or-spurious'}-delivery:{kind}:{nconn}-connections-{how}",
+                        f"after feed step {step} connection {ci} had received {fed} characters = {due} complete messages, but {ndel} were delivered to it",
+                        case, detail)
+            return True
+    for ci, (stream, ams, ends, pieces) in enumerate(conns):
+        want = [view_abstract(a) for a in ams]
+        got = [v for _, v in res.delivered[ci]]
+        ctx.count("deliveries", len(got))
+        if got != want:
+            ctx.violate(f"transport:{classify(want, got)}:{kind}", f"connection {ci} delivered a different sequence than it was sent", case,
+                        dict(detail, got=got, want=want))
+            return True
+    return True
+
+
 def thresholds(stream, ends):
     small = longest_element(stream, ends)
     out = [("small", small)]
@@ -216,10 +274,16 @@ def _run(ctx):
         for i in range(200, 212):
             if ctx.mine(i):
                 run_exhaustive(ctx, i, 2, maxlen=90)
+        for i in range(600):
+            if ctx.mine(i):
+                ctx.case_fast(("transport", i), nontrivial=transport_case(ctx, i))
         return
     for i in range(400):
         if ctx.mine(i):
             run_stream(ctx, i, short=False, big=(i % 10 == 9), plan=quick_plan if i % 10 != 9 else big_plan)
+    for i in range(20000):
+        if ctx.mine(i):
+            ctx.case_fast(("transport", i), nontrivial=transport_case(ctx, i))
     for i in range(1000, 1040):
         run_exhaustive(ctx, i, 2, maxlen=150, shard=True)
     for i in range(1000, 1040):
@@ -263,6 +327,10 @@ def finish_notes(ctx):
 
 
 def replay(ctx, case):
+    if case.get("mode") == "transport":
+        transport_case(ctx, case["i"])
+        ctx.case_fast(("replay",))
+        return
     stream, ams, ends = build_stream(ctx, case["i"], short=case.get("short", False), big=case.get("big", False))
     thr = dict(thresholds(stream, ends))[case["thr"]]
     check_partition(ctx, stream, ams, ends, thr, case["thr"], case["cuts"], case)
